@@ -26,12 +26,16 @@ type faultDeleter struct {
 	failAt *int64 // -1: never
 	log    *[]string
 	id     int
+	hook   *func(p int64) // hostile call-out: runs inside Delete (the index mutex is not held there)
 }
 
 func (d *faultDeleter) Delete(ctx context.Context, key []byte) error {
 	p := atomic.AddInt64(d.pos, 1) - 1
 	if d.log != nil {
 		*d.log = append(*d.log, fmt.Sprintf("c%d:%s", d.id, keyLabel(key)))
+	}
+	if d.hook != nil && *d.hook != nil {
+		(*d.hook)(p)
 	}
 	if p == atomic.LoadInt64(d.failAt) {
 		return &injectedDeleteErr{pos: int(p)}
@@ -50,6 +54,8 @@ type c15Scenario struct {
 	dlog     []string
 	desc     []string
 	invLabels []string
+	hook     func(p int64)
+	hookFired bool
 }
 
 func c15Build(seed int64) *c15Scenario {
@@ -77,7 +83,7 @@ func c15Build(seed int64) *c15Scenario {
 		cnt := 1 + rng.Intn(3)
 		for j := 0; j < cnt; j++ {
 			bi := rng.Intn(nBack)
-			sc.idx.AddCache(name, &faultDeleter{be: sc.backends[bi], pos: &sc.pos, failAt: &sc.failAt, log: &sc.dlog, id: bi})
+			sc.idx.AddCache(name, &faultDeleter{be: sc.backends[bi], pos: &sc.pos, failAt: &sc.failAt, log: &sc.dlog, id: bi, hook: &sc.hook})
 			sc.byName[name] = append(sc.byName[name], bi)
 		}
 	}
@@ -182,7 +188,7 @@ func init() {
 		Rule: "seeded incidence structures (<=11 keys incl. a hash-colliding pair, <=5 labels, <=3 names + embedded default index, 1..3 caches per name over 1..4 backends of all kinds, repeated labelling, repeated/unknown labels in the argument list); " +
 			"each scenario is rebuilt and run once fault-free and once per delete position p with an injected deleter failure at p (complete fault enumeration), followed by recovery and retry; " +
 			"plus concurrent AddLabels/AddCache/InvalidateByLabels workloads; distinct_nontrivial = distinct (scenario seed, fault position) runs in which at least one labelled entry existed",
-		Required: []string{"runs.nofault", "runs.fault", "fault.error_returned", "retry.checked", "concurrent.runs", "removed.entries"},
+		Required: []string{"runs.nofault", "runs.fault", "fault.error_returned", "retry.checked", "concurrent.runs", "removed.entries", "hostile_label.followups"},
 		Assumptions: []string{"labels consumed by a successful invalidation are not re-applied (workloads never rewrite a key after its label was consumed)"},
 	})
 }
@@ -222,6 +228,33 @@ func c15Run(b *Batch, idx int, seed int64, failAt int) (deletes int) {
 	sc.failAt = int64(failAt)
 	before := sc.content()
 	want := sc.expectedAbsent(sc.invLabels)
+	// hostile call-out: while a Delete is in flight (at the failing position, or at position 0 of a fault-free run) another
+	// key gets one of the invalidated labels - exactly what a concurrent AddLabels would do
+	hostile := mix64(uint64(seed))%3 == 0
+	hostileName := ""
+	var hostileKey []byte
+	if hostile {
+		var ns []string
+		for n := range sc.byName {
+			if n != "default" {
+				ns = append(ns, n)
+			}
+		}
+		sort.Strings(ns)
+		hostileName = ns[int(mix64(uint64(seed)+1)%uint64(len(ns)))]
+		hostileKey = sc.keys[int(mix64(uint64(seed)+2)%uint64(len(sc.keys)))]
+		at := int64(failAt)
+		if at < 0 {
+			at = 0
+		}
+		sc.hook = func(p int64) {
+			if p == at && !sc.hookFired {
+				sc.hookFired = true
+				sc.idx.AddLabels(hostileName, clone(hostileKey), sc.invLabels[0])
+				b.R.Count("hostile_label.added_during_delete", 1)
+			}
+		}
+	}
 	witness := map[string]interface{}{"scenario_seed": seed, "fail_at": failAt, "labels": sc.invLabels, "assoc": sc.desc, "names": fmt.Sprint(sc.byName)}
 	fail := func(what, msg string) {
 		witness["deletes"] = sc.dlog
@@ -261,6 +294,17 @@ func c15Run(b *Batch, idx int, seed int64, failAt int) (deletes int) {
 		for bi, m := range before {
 			for k, v := range m {
 				av, ok := after[bi][k]
+				if hostile && sc.hookFired && k == string(hostileKey) {
+					inName := false
+					for _, hb := range sc.byName[hostileName] {
+						if hb == bi {
+							inName = true
+						}
+					}
+					if inName {
+						continue // labelled during the call: may or may not be removed by this very call
+					}
+				}
 				if want[bi][k] {
 					if mustBeGone && ok {
 						fail("incomplete", fmt.Sprintf("labelled key %s still present in backend %d", keyLabel([]byte(k)), bi))
@@ -292,6 +336,9 @@ func c15Run(b *Batch, idx int, seed int64, failAt int) (deletes int) {
 		if idx == 0 && failAt < 0 {
 			b.R.Sample(witness)
 		}
+		if hostile && sc.hookFired {
+			c15HostileFollowUp(b, sc, hostileName, hostileKey, fail)
+		}
 		return int(sc.pos)
 	}
 	// error path
@@ -321,6 +368,11 @@ func c15Run(b *Batch, idx int, seed int64, failAt int) (deletes int) {
 		return int(sc.pos)
 	}
 	checkUntouched(after2, true) // reports "incomplete" if a labelled key was lost from the index
+	if hostile && sc.hookFired {
+		// the key labelled while the failing Delete was in flight is still indexed: the retry (or at the latest one more
+		// invalidation) removes it from every cache of its name
+		c15HostileFollowUp(b, sc, hostileName, hostileKey, fail)
+	}
 	if cnt2 != removed2 {
 		fail("count", fmt.Sprintf("retry returned count %d, entries actually removed %d", cnt2, removed2))
 	}
@@ -410,4 +462,21 @@ func c15Concurrent(b *Batch, idx int) {
 		b.R.Violate(b, idx, "C15:concurrent-count", fmt.Sprintf("sum of returned counts %d, entries removed %d", total, written-int64(len(left))), w)
 	}
 	b.R.Count("removed.entries", total)
+}
+
+// c15HostileFollowUp: a key that was labelled while a Delete was in flight must still be indexed afterwards.
+func c15HostileFollowUp(b *Batch, sc *c15Scenario, name string, key []byte, fail func(what, msg string)) {
+	sc.hook = nil
+	sc.failAt = -1
+	if _, err := sc.idx.InvalidateByLabels(bg, sc.invLabels[0]); err != nil {
+		fail("retry-error", err.Error())
+		return
+	}
+	b.R.Count("hostile_label.followups", 1)
+	for _, bi := range sc.byName[name] {
+		if _, err := sc.backends[bi].Read(bg, key); errClass(err) != "notfound" {
+			fail("label-added-during-delete-lost", fmt.Sprintf("key %s was labelled %s under %s while a Delete of the same invalidation was in flight; a later invalidation of that label left it in backend %d", keyLabel(key), sc.invLabels[0], name, bi))
+			return
+		}
+	}
 }
